@@ -81,9 +81,10 @@ def finish(ctx, explanation, trusted_base=None, extra_cov=None):
                 printed.add(v["key"])
         else:
             new.append(v)
-    os.makedirs(os.path.join(VERIF, "evidence", "replay"), exist_ok=True)
+    evdir = os.environ.get("MQ_EVIDENCE_DIR") or os.path.join(VERIF, "evidence")
+    os.makedirs(os.path.join(evdir, "replay"), exist_ok=True)
     # stale replay files of this property
-    rd = os.path.join(VERIF, "evidence", "replay")
+    rd = os.path.join(evdir, "replay")
     for f in os.listdir(rd):
         if f.startswith(ctx.prop + "-"):
             os.remove(os.path.join(rd, f))
@@ -127,7 +128,7 @@ def finish(ctx, explanation, trusted_base=None, extra_cov=None):
         "wall_s": round(time.time() - ctx.t0, 2),
         "violations": len(new),
     }
-    with open(os.path.join(VERIF, "evidence", "%s.json" % ctx.prop), "w") as f:
+    with open(os.path.join(evdir, "%s.json" % ctx.prop), "w") as f:
         json.dump(ev, f, indent=1)
     print("%s: %d rule instances, %d hold, %d new violation(s), %d known finding(s) [%s tier, %.1fs]" % (
         ctx.prop, len(ctx.instances), len(holds), len(new), len(printed), ctx.tier, time.time() - ctx.t0))
